@@ -18,6 +18,17 @@
       20.. path-taking tools: 1 = the resolver call on the argument, 2 = first file-system / process use
          20 read, 21 write, 22 ls, 23 grep, 24 shell (bash cwd), 25 tasks/pipes, 26 tasks/pty
       30 the set of builtin modules is the known one (1) or not (0)
+      11 also: 2 = the loop that sends every recorded path through safe_join, before the first join (1)
+      12 store ids: 1 = a `.join(store_component(..)?)` of a session / checkpoint id, 9 = an id joined raw
+  * TOOL PROGRAMS (id, list of (operation, derivation)) in source order: every file-system / process call of a
+    path-taking function with the derivation of its argument from the resolver's result
+      operations 1 open/read 2 stat 3 create_dir_all 4 write 5 append-open 6 remove_file 7 rename 8 walk 9 chdir
+                 10 remove_empty_dirs 99 an fs call the extractor does not know
+      derivations 0 the workspace root, 1 the resolver's result, 2 its parent behind a file-system check that it is
+                 not the root, 12 its parent without one, 3/13 its with_extension likewise, 4 an entry of the walk
+                 started at it, (5 a checkpoint-store path: left out), 99 anything else
+      ids 20 read 21 write 22 ls 23 grep 24/27 bash with / without cwd 25/28 pipes 26/29 pty 40-43 patch headers
+          44 checkpoint create 45 rewind 46 apply_patch's revert_paths
 
 and writes coq/Gen/Resolvers.v with the obligation  gen_resolvers_ok : resolvers_wf ... = true.
 Pattern based on the whitespace-free source text; a function it cannot find makes gen_resolvers_found false (it never
@@ -120,6 +131,231 @@ def coq_list(l):
     return "[" + "; ".join(str(x) for x in l) + "]"
 
 
+# ---------------------------------------------------------------- tool programs
+CALLS = [
+    (1, r"File::open\((?P<a>[^(),]*)\)"),
+    (1, r"fs::read\((?P<a>[^(),]*)\)"),
+    (2, r"(?:=if!?|if!?|=|\(|!|&&|\|\||\|)(?P<a>[a-z_]\w*)\.(?:exists|is_dir|is_file|metadata|symlink_metadata)\(\)"),
+    (3, r"fs::create_dir_all\((?P<a>[^(),]*)\)"),
+    (4, r"fs::write\((?P<a>[^(),]*),"),
+    (5, r"OpenOptions::new\(\)(?:\.\w+\([^()]*\))*\.open\((?P<a>[^(),]*)\)"),
+    (6, r"fs::remove_file\((?P<a>[^(),]*)\)"),
+    (7, r"fs::rename\((?P<a>[^(),]*),(?P<b>[^(),]*)\)"),
+    (8, r"WalkBuilder::new\((?P<a>[^(),]*)\)"),
+    (9, r"cmd\.(?:current_dir|cwd)\((?P<a>[^(),]*)\)"),
+    (10, r"remove_empty_dirs\((?P<a>[^(),]*)\)"),
+    (99, r"fs::(?!read\(|create_dir_all\(|write\(|remove_file\(|rename\()\w+\((?P<a>[^(),]*)"),
+]
+
+
+def block_at(text, i):
+    """text[i] == '{' -> index just past the matching '}'"""
+    depth = 0
+    j = i
+    while j < len(text):
+        if text[j] == "{":
+            depth += 1
+        elif text[j] == "}":
+            depth -= 1
+            if depth == 0:
+                return j + 1
+        j += 1
+    return len(text)
+
+
+def norm_arg(a):
+    a = a.strip()
+    while a.startswith("&"):
+        a = a[1:]
+    return a
+
+
+def scan(text, env, binds, guards=None, inline=None):
+    """left-to-right scan of the squashed text: `binds` = [(regex with group v (and optionally b), fn(env, m) -> deriv)]
+    rebinding variables; CALLS produce (op, deriv of the argument); `inline` = {callee regex: [(op, deriv offset)]}"""
+    env = dict(env)
+    events = []
+    for pat, fn in binds:
+        for m in re.finditer(pat, text):
+            events.append((m.start(), 0, "bind", m, fn))
+    for op, pat in CALLS:
+        for m in re.finditer(pat, text):
+            events.append((m.start(), 1, "call", m, op))
+    for pat, ops in (inline or {}).items():
+        for m in re.finditer(pat, text):
+            events.append((m.start(), 1, "inline", m, ops))
+    events.sort(key=lambda e: (e[0], e[1]))
+    out = []
+    for pos, _, kind, m, x in events:
+        if kind == "bind":
+            env[m.group("v")] = x(env, m, text[:pos])
+        elif kind == "call":
+            args = [m.group("a")] + ([m.group("b")] if "b" in m.groupdict() else [])
+            for a in args:
+                d = env.get(norm_arg(a), 99)
+                if d != -1:          # -1: not a path (the file type of a walk entry)
+                    out.append((x, d))
+        else:
+            d = env.get(norm_arg(m.group("a")), 99)
+            out.extend((op, d if dd == 1 else (99 if d != 1 else dd)) for op, dd in x)
+    return out
+
+
+def drop_store(prog):
+    return [(o, d) for o, d in prog if d != 5]
+
+
+def tool_programs(rd, cut, ws):
+    progs = []
+    ok = True
+
+    def add(i, prog):
+        nonlocal ok
+        if prog is None:
+            ok = False
+            prog = []
+        progs.append((i, prog))
+
+    RESOLVE = r"let(?P<v>\w+)=matchresolve_path\(&config\.workspace_root,&(?:args\.path|root)\)\{Ok\(path\)=>path,"
+    res1 = (RESOLVE, lambda env, m, before: 1)
+
+    def parent_of(unguarded, guard_pat=None):
+        def f(env, m, before):
+            base = env.get(m.group("b"), 99)
+            if base != 1:
+                return 99
+            if guard_pat and re.search(guard_pat.replace("BASE", re.escape(m.group("b"))), before):
+                return 2
+            return unguarded
+        return f
+    PARENT = r"ifletSome\((?P<v>\w+)\)=(?P<b>\w+)\.parent\(\)"
+
+    # read
+    b = fn_body(cut(rd("crates/rip-tools/src/builtins/read.rs")), "run_read")
+    add(20, scan(squash(b), {}, [res1]) if b else None)
+    # write: parent / tmp are unguarded by the file system; the refusal of a path without a file name must come first
+    b = fn_body(cut(rd("crates/rip-tools/src/builtins/write.rs")), "run_write")
+    if b:
+        t = squash(b)
+        guard = re.search(r"ifPath::new\(&args\.path\)\.file_name\(\)\.is_none\(\)\{returnToolOutput::failure\(", t)
+        first_fs = min([m.start() for _, pat in CALLS for m in re.finditer(pat, t)] or [len(t)])
+        tmp = (r"let(?P<v>\w+)=(?P<b>\w+)\.with_extension\(format!\(\"tmp-\{\}\",uuid::Uuid::new_v4\(\)\)\)", lambda env, m, before: 13 if env.get(m.group("b")) == 1 else 99)
+        prog = scan(t, {}, [res1, (PARENT, parent_of(12)), tmp])
+        if not (guard and guard.start() < first_fs):
+            prog = [(99, 99)] + prog
+        add(21, prog)
+    else:
+        add(21, None)
+    # ls / grep
+    walk_entry = (r"let(?P<v>\w+)=entry\.path\(\);", lambda env, m, before: 4 if re.search(r"letmutbuilder=WalkBuilder::new\(&root_path\);", before) and re.search(r"forentryinbuilder\.build\(\)\{", before) and env.get("root_path") == 1 else 99)
+    for i, f, fn in [(22, "ls.rs", "run_ls"), (23, "grep.rs", "run_grep")]:
+        b = fn_body(cut(rd("crates/rip-tools/src/builtins/" + f)), fn)
+        add(i, scan(squash(b), {"ft": -1}, [res1, walk_entry]) if b else None)
+    # the child's working directory: bash tool, pipes task, pty task
+    for i_some, i_none, f in [(24, 27, "crates/rip-tools/src/builtins/shell.rs"), (25, 28, "crates/ripd/src/tasks/pipes.rs"), (26, 29, "crates/ripd/src/tasks/pty.rs")]:
+        t = squash(cut(rd(f)))
+        m = re.search(r"ifletSome\(cwd\)=args\.cwd\.as_deref\(\)\{", t)
+        if not m:
+            add(i_some, None)
+            add(i_none, None)
+            continue
+        e = block_at(t, m.end() - 1)
+        some = t[m.end() - 1:e]
+        none = ""
+        if t[e:e + 5] == "else{":
+            none = t[e + 4:block_at(t, e + 4)]
+        bind = (r"matchresolve_path\(&config\.workspace_root,cwd\)\{Ok\((?P<v>\w+)\)=>", lambda env, m2, before: 1)
+        add(i_some, scan(some, {}, [bind]))
+        add(i_none, scan(none, {"config.workspace_root": 0}, []))
+    # apply_patch: the four headers, record_undo inlined
+    b = fn_body(ws, "apply_patch")
+    if b:
+        t = squash(b)
+        mclo = re.search(r"letmutrecord_undo=\|path:&PathBuf\|->io::Result<\(\)>\{", t)
+        if mclo:
+            ce = block_at(t, mclo.end() - 1)
+            clo = scan(t[mclo.end() - 1:ce], {"path": 1}, [])
+            pushes_param_only = len(re.findall(r"undo\.push\(", t)) == 1 and "undo.push((path.clone(),previous));" in t[mclo.end():ce]
+            rest = t[ce:]
+        else:
+            clo, pushes_param_only, rest = None, False, t
+        sj = (r"let(?P<v>dest|target)=self\.safe_join\((?:path|moved_to)\)\?;", lambda env, m, before: 1)
+        par = (PARENT, parent_of(12, r"ifBASE\.exists\(\)\{returnErr\("))
+        inline = {r"record_undo\((?P<a>[^()]*)\)\?": clo or [(99, 99)]}
+
+        def arm(name):
+            m = re.search(r"PatchOp::" + name + r"\{[^{}]*\}=>\{", rest)
+            if not m:
+                return None
+            return rest[m.end() - 1:block_at(rest, m.end() - 1)]
+        a_add, a_del, a_upd = arm("AddFile"), arm("DeleteFile"), arm("UpdateFile")
+        add(40, scan(a_add, {}, [sj, par], inline=inline) if a_add and clo is not None else None)
+        add(41, scan(a_del, {}, [sj, par], inline=inline) if a_del and clo is not None else None)
+        if a_upd and clo is not None:
+            mm = re.search(r"ifletSome\(moved_to\)=moved_to\{", a_upd)
+            if mm:
+                add(42, scan(a_upd[:mm.start()], {}, [sj, par], inline=inline))
+                add(43, scan(a_upd[mm.start():], {"dest": 1}, [sj, par], inline=inline))
+            else:
+                add(42, None)
+                add(43, None)
+        else:
+            add(42, None)
+            add(43, None)
+        revert_called_with_undo = "self.revert_paths(undo)" in t and pushes_param_only
+    else:
+        for i in (40, 41, 42, 43):
+            add(i, None)
+        revert_called_with_undo = False
+    # checkpoint create: source side (store paths = 5, left out)
+    b = fn_body(ws, "create_checkpoint")
+    if b:
+        t = squash(b)
+        binds = [
+            (r"let(?P<v>source)=self\.root\.join\(&rel\);", lambda env, m, before: 1 if "letrel=self.to_relative(path)?;" in before else 99),
+            (r"let(?P<v>checkpoint_root)=self\.checkpoints_dir\.join\(", lambda env, m, before: 5),
+            (r"let(?P<v>files_root)=checkpoint_root\.join\(\"files\"\);", lambda env, m, before: 5),
+            (r"let(?P<v>dest)=files_root\.join\(&rel\);", lambda env, m, before: 5),
+            (r"let(?P<v>metadata_path)=checkpoint_root\.join\(\"checkpoint\.json\"\);", lambda env, m, before: 5),
+            (r"ifletSome\((?P<v>parent)\)=dest\.parent\(\)", lambda env, m, before: 5),
+        ]
+        add(44, drop_store(scan(t, {}, binds)))
+    else:
+        add(44, None)
+    # rewind: snapshot loop, restore loop, undo loop
+    b = fn_body(ws, "rewind_to_checkpoint")
+    if b:
+        t = squash(b)
+        validated = r"forfilein&checkpoint\.files\{self\.safe_join\(Path::new\(&file\.path\)\)\?;\}"
+        binds = [
+            (r"let(?P<v>target_path)=self\.root\.join\(&file\.path\);", lambda env, m, before: 1 if re.search(validated, before) else 99),
+            (r"let(?P<v>path)=self\.root\.join\(rel\);", lambda env, m, before: 1 if re.search(validated, before) and "for(rel,previous)inundo{" in before else 99),
+            (r"let(?P<v>checkpoint_root)=self\.checkpoints_dir\.join\(", lambda env, m, before: 5),
+            (r"let(?P<v>metadata_path)=checkpoint_root\.join\(\"checkpoint\.json\"\);", lambda env, m, before: 5),
+            (r"let(?P<v>source_path)=checkpoint_root\.join\(\"files\"\)\.join\(&file\.path\);", lambda env, m, before: 5),
+            (r"ifletSome\((?P<v>parent)\)=(?P<b>target_path)\.parent\(\)", parent_of(12, r"letbytes=fs::read\(&source_path\)\?;$")),
+            (r"ifletSome\((?P<v>parent)\)=(?P<b>path)\.parent\(\)", parent_of(12, r"Some\(bytes\)=>\{$")),
+        ]
+        add(45, drop_store(scan(t, {}, binds)))
+    else:
+        add(45, None)
+    # revert_paths: only paths recorded by record_undo
+    b = fn_body(ws, "revert_paths")
+    if b and revert_called_with_undo:
+        t = squash(b)
+        binds = [
+            (r"for\((?P<v>path),previous\)inundo\.into_iter\(\)\.rev\(\)\{", lambda env, m, before: 1),
+            (PARENT, parent_of(12, r"Some\(bytes\)=>\{.*$")),
+        ]
+        prog = scan(t, {}, binds)
+        # remove_empty_dirs walks below its argument: derivation 4 of a resolved path
+        prog = [(o, 4 if (o == 10 and d == 1) else d) for o, d in prog]
+        add(46, prog)
+    else:
+        add(46, None)
+    return progs, ok
+
+
 def main():
     ap = argparse.ArgumentParser()
     ap.add_argument("--repo", required=True)
@@ -183,8 +419,13 @@ def main():
         (9, r"ifpath\.exists\(\)|fs::read\(path\)"),      # the raw path handed to the OS (pre-repair shape)
     ]))
     addo(11, order_of(fn_body(ws, "rewind_to_checkpoint"), [
+        (2, r"forfilein&checkpoint\.files\{self\.safe_join\(Path::new\(&file\.path\)\)\?;\}"),
         (1, r"lettarget_path=self\.root\.join\(&file\.path\);"),
         (9, r"lettarget_path=(?!self\.root\.join\(&file\.path\);)"),
+    ]))
+    addo(12, order_of(squash(ws), [
+        (1, r"\.join\(store_component\((?:session_id|checkpoint_id)\)\?\)"),
+        (9, r"\.join\((?:session_id|checkpoint_id)\)"),
     ]))
     fs_use = r"fs::\w+\(|File::open\(|OpenOptions::new\(|WalkBuilder::new\(|\.current_dir\(|\.spawn\(\)"
     tools = [
@@ -225,11 +466,18 @@ def main():
     out.append("Definition gen_path_orders : list (N * list N) := [" + "; ".join(f"({i}, {coq_list(s)})" for i, s in orders) + "].")
     out.append("Lemma gen_resolvers_ok : resolvers_wf gen_resolvers_found gen_resolver_steps gen_path_orders = true.")
     out.append("Proof. vm_compute. reflexivity. Qed.")
+    progs, pok = tool_programs(rd, cut, ws)
+    coq_prog = lambda pr: "[" + "; ".join(f"({o}, {d})" for o, d in pr) + "]"
+    out.append(f"Definition gen_tools_found : bool := {'true' if pok else 'false'}.")
+    out.append("Definition gen_tool_progs : list (N * list (N * N)) := [" + "; ".join(f"({i}, {coq_prog(pr)})" for i, pr in sorted(progs)) + "].")
+    out.append("Lemma gen_tools_ok : tools_wf gen_tools_found gen_tool_progs = true.")
+    out.append("Proof. vm_compute. reflexivity. Qed.")
     os.makedirs(a.out, exist_ok=True)
     with open(os.path.join(a.out, "Resolvers.v"), "w") as f:
         f.write("\n".join(out) + "\n")
     print("resolvers:", resolvers)
     print("orders:", orders, "found:", ok)
+    print("tool programs:", sorted(progs), "found:", pok)
 
 
 if __name__ == "__main__":
